@@ -253,6 +253,9 @@ _warc_header(struct archive_write *a, struct archive_entry *entry)
 				&a->archive,
 				ARCHIVE_ERRNO_FILE_FORMAT,
 				"cannot archive file");
+			/* nothing was written: no end-of-record either */
+			w->typ = 0;
+			archive_string_free(&hdr);
 			return (ARCHIVE_WARN);
 		}
 		/* otherwise append to output stream */
